@@ -103,13 +103,42 @@ type TConn struct {
 	closed    int
 	deadlines []string
 	quiet     bool // do not log write-side events
-	// generic op recording for handshake streams
-	ops []string
-	// reply computed from what has been written so far, the first time a Read finds no chunks
+	// generic op recording and fault injection for the handshake streams (C16): every call on the
+	// net.Conn is one op; gfail names the op index that fails and how
+	gen    bool
+	ops    []string
+	gfail  int    // -1 = none
+	gkind  string // "error" | "timeout" | "eof"
+	gfired bool
+	// replies computed from what has been written so far: each time a Read finds no chunks, the next
+	// function of the queue is consulted (dynReply is the single-reply shorthand)
 	dynReply func(wire []byte) []byte
+	dynQ     []func(wire []byte) []byte
+	allChunks [][]byte // every non-empty result of Read, in order
 }
 
-func newTConn(l *evlog) *TConn { return &TConn{log: l, faults: map[int]fault{}} }
+func newTConn(l *evlog) *TConn { return &TConn{log: l, faults: map[int]fault{}, gfail: -1} }
+
+// gop records a generic op and reports whether it must fail
+func (c *TConn) gop(name string) error {
+	if !c.gen {
+		return nil
+	}
+	idx := len(c.ops)
+	c.ops = append(c.ops, name)
+	if idx == c.gfail {
+		c.gfired = true
+		switch c.gkind {
+		case "timeout":
+			return &tErr{id: 900 + idx, timeout: true}
+		case "eof":
+			return io.EOF
+		default:
+			return &tErr{id: 900 + idx}
+		}
+	}
+	return nil
+}
 
 func hx(b []byte) string {
 	if len(b) == 0 {
@@ -130,6 +159,9 @@ func unhx(s string) []byte {
 }
 
 func (c *TConn) Write(p []byte) (int, error) {
+	if err := c.gop("W"); err != nil {
+		return 0, err
+	}
 	k := c.calls
 	c.calls++
 	f, ok := c.faults[k]
@@ -156,6 +188,9 @@ func (c *TConn) Write(p []byte) (int, error) {
 }
 
 func (c *TConn) SetWriteDeadline(t time.Time) error {
+	if c.gen {
+		return c.gop("SWD:" + deadlineClass(t))
+	}
 	k := c.calls
 	c.calls++
 	f, ok := c.faults[k]
@@ -173,18 +208,39 @@ func (c *TConn) SetWriteDeadline(t time.Time) error {
 
 func (c *TConn) SetDeadline(t time.Time) error {
 	c.deadlines = append(c.deadlines, "d:"+timeTok(t))
-	return nil
+	return c.gop("SD:" + deadlineClass(t))
 }
 func (c *TConn) SetReadDeadline(t time.Time) error {
 	c.deadlines = append(c.deadlines, "rd:"+timeTok(t))
-	return nil
+	return c.gop("SRD:" + deadlineClass(t))
+}
+
+// deadlineClass: "0" for the zero time, "D" for a deadline in the future, "P" for one in the past
+func deadlineClass(t time.Time) string {
+	if t.IsZero() {
+		return "0"
+	}
+	if time.Until(t) > 0 {
+		return "D"
+	}
+	return "P"
 }
 
 func (c *TConn) Read(p []byte) (int, error) {
+	if err := c.gop("R"); err != nil {
+		return 0, err
+	}
 	c.reads++
 	if len(c.chunks) == 0 && c.dynReply != nil {
 		f := c.dynReply
 		c.dynReply = nil
+		if b := f(c.wire); len(b) > 0 {
+			c.chunks = [][]byte{b}
+		}
+	}
+	if len(c.chunks) == 0 && len(c.dynQ) > 0 {
+		f := c.dynQ[0]
+		c.dynQ = c.dynQ[1:]
 		if b := f(c.wire); len(b) > 0 {
 			c.chunks = [][]byte{b}
 		}
@@ -197,6 +253,7 @@ func (c *TConn) Read(p []byte) (int, error) {
 	}
 	ch := c.chunks[0]
 	n := copy(p, ch)
+	c.allChunks = append(c.allChunks, append([]byte(nil), ch[:n]...))
 	if n == len(ch) {
 		c.chunks = c.chunks[1:]
 		if len(c.chunks) == 0 && c.together {
@@ -212,7 +269,10 @@ func (c *TConn) Read(p []byte) (int, error) {
 	return n, nil
 }
 
-func (c *TConn) Close() error { c.closed++; return nil }
+func (c *TConn) Close() error {
+	c.closed++
+	return c.gop("C")
+}
 
 type tAddr struct{}
 
